@@ -370,6 +370,16 @@ pub fn check_failure(b: &Bound, which_full: &str) -> Option<String> {
             std::fs::write(&f, "EF zzz\n").ok()?;
             vec![ms, fs]
         }
+        "model without any valid colour" => {
+            // b is declared as an observable activator but the function does not depend on it: the library rejects the model
+            let text = "a -> x\nb -> x\na -?? a\nb -?? b\n$x: a | (b & !b)\n";
+            match BooleanNetwork::try_from(text).map_err(|e| e.to_string()).and_then(|bn| get_extended_symbolic_graph(&bn, 1).map(|_| ())) {
+                Err(_) => {}
+                Ok(()) => return Some(format!("{which}: MACHINERY: the library accepts the model that was meant to admit no colour")),
+            }
+            std::fs::write(&m, text).ok()?;
+            vec![ms, fs]
+        }
         "wild-card without -e" => {
             std::fs::write(&f, "%p% & a\n").ok()?;
             vec![ms, fs]
@@ -449,6 +459,9 @@ pub fn check_failure(b: &Bound, which_full: &str) -> Option<String> {
     if out.panicked() {
         return Some(format!("{which}: the tool crashes instead of reporting (exit {:?}): {}", out.code, crate::report::truncate(&out.stderr, 300)));
     }
+    if which == "model without any valid colour" && cli::strip_ansi(&out.stdout).lines().any(|l| l.trim_start().starts_with("Formula:")) {
+        return Some(format!("{which}: the tool prints results for a model the library rejects (no parametrisation satisfies the declared regulations): {}", crate::report::truncate(&out.stdout, 200)));
+    }
     if which != "empty formula file" && out.stdout.trim().is_empty() && out.stderr.trim().is_empty() {
         return Some(format!("{which}: nothing is reported"));
     }
@@ -509,8 +522,12 @@ pub fn run(tier: &str) -> Result<Report, String> {
     if !cli::checker_bin().exists() {
         return Err(format!("{} not built (./check builds it)", cli::checker_bin().display()));
     }
-    let nets = core_nets(0)?;
-    let which = vec!["tog2", "con2", "unf2", "inp2", "imp3"];
+    let mut nets = core_nets(0)?;
+    // networks whose DECLARED regulations cut the colours of an explicit function down (a non-observable inhibition on an input the
+    // function uses positively; an observable activation next to a function symbol): the tool must work on the graph the library builds
+    nets.push(Arc::new(bind("dcf3", &crate::nets::spec("a -|? x; b -?? x; a -?? a; b -?? b; $x: f(b) & a"), 0)?));
+    nets.push(Arc::new(bind("dcf2", &crate::nets::spec("a -> b; a -?? a; $b: a | g(a)"), 0)?));
+    let which = vec!["tog2", "con2", "unf2", "inp2", "imp3", "dcf3", "dcf2"];
     let plain_lists: Vec<Vec<String>> = vec![
         vec!["!{x}: AX {x}".into()],
         vec!["EF a".into(), "!{x}: AG EF {x}".into(), "3{x}: 3{y}: (@{x}: ~{y} & AX {x}) & (@{y}: AX {y})".into()],
@@ -664,7 +681,7 @@ pub fn run(tier: &str) -> Result<Report, String> {
     }
     // failure configurations
     let failures = [
-        "missing model", "corrupt model", "model with unknown extension", "missing formula file", "invalid formula", "free variable", "unknown proposition", "wild-card without -e",
+        "missing model", "corrupt model", "model without any valid colour", "model with unknown extension", "missing formula file", "invalid formula", "free variable", "unknown proposition", "wild-card without -e",
         "missing context label", "missing context archive", "context archive is not a zip", "wrong print option", "empty formula file",
         "formula file with a non-UTF-8 byte in a comment", "formula file with a non-UTF-8 byte in a formula", "formula file with a non-UTF-8 byte in its first line", "formula path is a directory", "invalid formula after valid ones", "invalid formula between valid ones", "unknown proposition between valid ones",
     ];
